@@ -18,7 +18,8 @@ pub fn main(a: &Args) {
     match a.pos.first().map(|s| s.as_str()) {
         Some("trace") => trace(a),
         Some("final") => final_outcomes(a),
-        _ => tool_error("c22 trace|final"),
+        Some("stress") => stress(a),
+        _ => tool_error("c22 trace|final|stress"),
     }
 }
 
@@ -338,4 +339,47 @@ fn final_outcomes(a: &Args) {
         out.flush();
     }
     verif::install(None);
+}
+
+/// Unlogged stress for the counters: batches of 16 succeeding custom jobs on 4 workers; the operations of one wave
+/// wait for each other (bounded spin) so that the workers leave their jobs within a few instructions of one another.
+fn stress(a: &Args) {
+    std::panic::set_hook(Box::new(|_| {}));
+    let mut out = Out::file(a.req("out"));
+    let n = 16usize;
+    let w = 4usize;
+    for b in 0..a.num("batches", 200) {
+        let arrive = Arc::new(AtomicU64::new(0));
+        let last_info: Arc<Mutex<Option<(usize, usize, usize)>>> = Arc::new(Mutex::new(None));
+        let li = last_info.clone();
+        let mut opts = BatchOptions::default().with_parallelism(w).with_progress_callback(move |i: &ProgressInfo| {
+            *li.lock().unwrap() = Some((i.running_jobs, i.completed_jobs, i.failed_jobs));
+        });
+        opts.progress_interval = Duration::from_millis(1);
+        let mut bp = BatchProcessor::new(opts);
+        for i in 0..n {
+            let arrive = arrive.clone();
+            bp.add_job(BatchJob::Custom {
+                name: format!("job{i}"),
+                operation: Box::new(move || {
+                    let wave = arrive.fetch_add(1, Ordering::SeqCst) / 4;
+                    let t0 = std::time::Instant::now();
+                    while arrive.load(Ordering::SeqCst) < (wave + 1) * 4 && t0.elapsed() < Duration::from_millis(5) {
+                        std::hint::spin_loop();
+                    }
+                    Ok(())
+                }),
+            });
+        }
+        let hang = json!({"ev": "hang", "case": b, "kind": "stress"});
+        let summary = with_watchdog(20, &mut out, hang, move || bp.execute());
+        if let Ok(s) = summary {
+            let kinds: Vec<&str> = s.results.iter().map(kind_of).collect();
+            let in_order = s.results.iter().enumerate().all(|(i, r)| idx_from_name(r) == i as i64 || idx_from_name(r) < 0);
+            let li = last_info.lock().unwrap().unwrap_or((usize::MAX >> 40, 0, 0));
+            out.line(&json!({"ev": "stress_final", "case": b, "n": n, "len": s.results.len(), "total": s.total_jobs, "inOrder": in_order, "results": kinds,
+                             "successful": s.successful, "failed": s.failed, "running": li.0, "completed": li.1, "failedJobs": li.2}));
+        }
+    }
+    out.flush();
 }
